@@ -262,6 +262,9 @@ func runConcWithFault(sc ConcScenario, hf *HandlerFault, prefix []int) (res *Con
 	if sc.Cfg.Lock != "none" {
 		res.Mon = InstallLockMonitor(s, w.LockSlot())
 		defer res.Mon.Uninstall()
+		for _, extra := range w.ExtraLockSlots() {
+			defer InstallLockMonitor(s, extra).Uninstall()
+		}
 	}
 	if !sc.NoBackendPoints {
 		w.ConnHook = func(tier int, c *fakemc.Conn) {
